@@ -189,3 +189,100 @@ Theorem C03_single_worker_deterministic :
     (res s, proc s) = seq_run c f input.
 Proof. exact single_worker_deterministic. Qed.
 Print Assumptions C03_single_worker_deterministic.
+
+(* ================================================================ the refined networks
+   Model/WorkerNet.v: Process / Map (output channel, closer, consumer) / Generate (no splitter,
+   buffered pipe) as committed in /repo (8c4cd9f), with every worker's top-of-loop ctx test, the
+   result send, the consumer and the closer as steps.  `gen has_out cap` select the construct; all
+   theorems hold for every value of them (in particular (false,false,_) = ProcessParallel,
+   (false,true,0) = Map, (true,true,2N+1) = GenerateParallel). *)
+From FunV Require Model.WorkerNet Proofs.WorkerNet_inv Proofs.WorkerNet_cont.
+
+Theorem C03_net_never_escapes_as_panic :
+  forall c gen has_out cap f n input s,
+    WorkerNet_inv.reach c gen has_out cap f (WorkerNet.init gen n input) s -> WorkerNet.crashed s = false.
+Proof. exact WorkerNet_inv.net_never_escapes_as_panic. Qed.
+Print Assumptions C03_net_never_escapes_as_panic.
+
+(* what the output iterator's Close() / the returned error contains: exactly the reportable failures
+   of the items whose user function has returned *)
+Theorem C03_net_result_contains_exactly_processed_failures :
+  forall c gen has_out cap f n input s,
+    WorkerNet_inv.reach c gen has_out cap f (WorkerNet.init gen n input) s ->
+    forall xe, In xe (WorkerNet.res s) <-> (In (fst xe) (WorkerNet.proc s) /\ In xe (recorded c f (fst xe))).
+Proof. exact WorkerNet_inv.net_result_contains_exactly_processed_failures. Qed.
+Print Assumptions C03_net_result_contains_exactly_processed_failures.
+
+Theorem C03_net_result_nil_iff_no_reportable_failure :
+  forall c gen has_out cap f n input s,
+    WorkerNet_inv.reach c gen has_out cap f (WorkerNet.init gen n input) s ->
+    (WorkerNet.res s = [] <-> forall x, In x (WorkerNet.proc s) -> reportable c f x = false).
+Proof. exact WorkerNet_inv.net_result_nil_iff_no_reportable_failure. Qed.
+Print Assumptions C03_net_result_nil_iff_no_reportable_failure.
+
+Theorem C03_net_token_conservation :
+  forall c gen has_out cap f n input s,
+    WorkerNet_inv.reach c gen has_out cap f (WorkerNet.init gen n input) s ->
+    Permutation (WorkerNet.proc s ++ WorkerNet_inv.vbusy (WorkerNet.wk s) ++ hand (WorkerNet.spl s) ++ WorkerNet.inp s ++ WorkerNet.drop s) input.
+Proof. exact WorkerNet_inv.net_token_conservation. Qed.
+Print Assumptions C03_net_token_conservation.
+
+(* Map / Generate: every output value is in exactly one place, and the values are exactly the items
+   on which the user function succeeded *)
+Theorem C03_net_output_conservation :
+  forall c gen has_out cap f n input s,
+    has_out = true -> WorkerNet_inv.reach c gen has_out cap f (WorkerNet.init gen n input) s ->
+    Permutation (WorkerNet_inv.vsending (WorkerNet.wk s) ++ WorkerNet.out s ++ WorkerNet.delivered s ++ WorkerNet.lost s)
+                (filter (WorkerNet.succ f) (WorkerNet.proc s)).
+Proof. exact WorkerNet_inv.net_output_conservation. Qed.
+Print Assumptions C03_net_output_conservation.
+
+(* continue mode, all three constructs: each item exactly once, exactly the reportable failures in
+   the result, nothing dropped or abandoned, and the consumer received exactly the successes *)
+Theorem C03_net_continue_mode_complete :
+  forall c gen has_out cap f n input, n >= 1 ->
+    (forall x, In x input -> continue (decision_of c f x) = true) ->
+    forall s, WorkerNet_inv.reach c gen has_out cap f (WorkerNet.init gen n input) s -> WorkerNet.terminated s = true ->
+      Permutation (WorkerNet.proc s) input /\
+      WorkerNet.drop s = [] /\ WorkerNet.lost s = [] /\ WorkerNet.failed s = false /\
+      (forall x xe, In x input -> In xe (recorded c f x) -> In xe (WorkerNet.res s)) /\
+      (forall xe, In xe (WorkerNet.res s) -> In (fst xe) input /\ In xe (recorded c f (fst xe))) /\
+      (WorkerNet.res s = [] <-> forall x, In x input -> reportable c f x = false) /\
+      (has_out = true -> Permutation (WorkerNet.delivered s) (filter (WorkerNet.succ f) input)).
+Proof. exact WorkerNet_cont.net_continue_mode_complete. Qed.
+Print Assumptions C03_net_continue_mode_complete.
+
+(* THE abort bound (full for the refined model; all constructs, N, inputs, user functions, schedules):
+   items started after the first failing user function returned
+     <= (N - 1) + ctx tests passed by other workers between that return and the failing worker's cancel().
+   The cancel() is called by the failing goroutine inside the error filter, a few instructions after
+   the function returns; other goroutines run in parallel, so the second term cannot be dropped
+   (C03_abort_bound_statement_needs_prompt_cancel), and it is 0 when the cancel lands first. *)
+Theorem C03_abort_bound :
+  forall c gen has_out cap f n input s,
+    WorkerNet_inv.reach c gen has_out cap f (WorkerNet.init gen n input) s -> WorkerNet.failed s = true ->
+    WorkerNet.h_after s + 1 <= n + WorkerNet.r_win s.
+Proof. exact WorkerNet_inv.net_abort_bound. Qed.
+Print Assumptions C03_abort_bound.
+
+Theorem C03_abort_bound_prompt :
+  forall c gen has_out cap f n input s,
+    WorkerNet_inv.reach c gen has_out cap f (WorkerNet.init gen n input) s -> WorkerNet.failed s = true ->
+    WorkerNet.r_win s = 0 -> WorkerNet.h_after s <= n - 1.
+Proof. exact WorkerNet_inv.net_abort_bound_prompt. Qed.
+Print Assumptions C03_abort_bound_prompt.
+
+Theorem C03_net_finish_noncontinue_stops :
+  forall c gen has_out cap f s i x s',
+    nth_error (WorkerNet.wk s) i = Some (WorkerNet.VBusy x) -> continue (decision_of c f x) = false ->
+    WorkerNet.exec c gen has_out cap f s (WorkerNet.KFinish i) = Some s' ->
+    exists w, nth_error (WorkerNet.wk s') i = Some w /\ WorkerNet_inv.vstopped w.
+Proof. exact WorkerNet_inv.net_finish_noncontinue_stops. Qed.
+Print Assumptions C03_net_finish_noncontinue_stops.
+
+Theorem C03_net_failing_worker_stops :
+  forall c gen has_out cap f s ls s' i w,
+    WorkerNet_inv.run c gen has_out cap f s ls s' -> nth_error (WorkerNet.wk s) i = Some w -> WorkerNet_inv.vstopped w ->
+    ~ In (WorkerNet.KHandoff i) ls /\ exists w', nth_error (WorkerNet.wk s') i = Some w' /\ WorkerNet_inv.vstopped w'.
+Proof. exact WorkerNet_inv.net_failing_worker_stops. Qed.
+Print Assumptions C03_net_failing_worker_stops.
